@@ -49,7 +49,7 @@ type nativeFunc struct {
 	f    func(i *interpreter, fr *frame, args []value) value
 }
 
-var noopSpanType, noopTracerType *nativeType
+var noopSpanType, noopTracerType, noopTracerProviderType *nativeType
 
 func init() {
 	blackholeType = &nativeType{name: "blackhole"}
@@ -58,9 +58,19 @@ func init() {
 		switch method {
 		case "IsRecording":
 			return false
-		case "SpanContext", "TracerProvider":
+		case "TracerProvider":
+			return iface{t: noopTracerProviderType, v: &nativeObj{kind: "tracerprovider"}}
+		case "SpanContext":
 			i.unsupported("noop span method %s", method)
 		}
+		return nil
+	}}
+	noopTracerProviderType = &nativeType{name: "noopTracerProvider", call: func(i *interpreter, fr *frame, method string, args []value) value {
+		i.stubs["noop tracer provider."+method]++
+		if method == "Tracer" {
+			return iface{t: noopTracerType, v: &nativeObj{kind: "tracer"}}
+		}
+		i.unsupported("noop tracer provider method %s", method)
 		return nil
 	}}
 	noopTracerType = &nativeType{name: "noopTracer", call: func(i *interpreter, fr *frame, method string, args []value) value {
